@@ -815,6 +815,13 @@ func (w *c08W) interrogateBody(st *c08Session, img *simfs.FS, id string, im c08I
 				return w.violate("C08.snapshot_unreadable", "offered snapshot does not read back completely", im,
 					"id %s: GetRdb = (%d,%d) but the reader delivered only %d bytes (ended=%v err=%v)", tailID(id), ro, rn, len(got), ended, terr)
 			}
+			if int64(len(got)) < rn && im.flip == "" && !(ended && terr != nil) {
+				// under verification a snapshot may be refused (an error at open or while reading, e.g. a source that
+				// writes no checksum); a reader that opens, delivers less than the snapshot and then neither ends nor
+				// fails is not a refusal - the offered snapshot just cannot be read
+				return w.violate("C08.snapshot_unreadable", "offered snapshot neither reads back completely nor is refused", im,
+					"id %s: GetRdb = (%d,%d); the reader opened without an error, delivered %d bytes and then stalled (ended=%v err=%v)", tailID(id), ro, rn, len(got), ended, terr)
+			}
 			if int64(len(got)) < rn {
 				simrt.Probe("c08_refused_while_reading")
 			}
